@@ -83,6 +83,12 @@ pub fn decrypt_private_key(encrypted_data: &str, password: &str) -> Result<Strin
     let encrypted_data = hex::decode(encrypted_data)
         .map_err(|_| Error::FailedToDecryptKey(String::from("Encrypted data is invalid")))?;
 
+    if encrypted_data.len() < SALT_LENGTH + NONCE_LENGTH {
+        return Err(Error::FailedToDecryptKey(String::from(
+            "Encrypted data is too short",
+        )));
+    }
+
     let salt: [u8; SALT_LENGTH] = encrypted_data[..SALT_LENGTH]
         .try_into()
         .map_err(|_| Error::FailedToDecryptKey(String::from("Could not find salt")))?;
@@ -124,7 +130,9 @@ pub fn decrypt_private_key(encrypted_data: &str, password: &str) -> Result<Strin
         })?;
 
     // Create secret key from decrypted byte
-    Ok(String::from_utf8(decrypted_data.to_vec()).expect("not able to convert private key"))
+    String::from_utf8(decrypted_data.to_vec()).map_err(|_| {
+        Error::FailedToDecryptKey(String::from("Decrypted private key is not valid UTF-8"))
+    })
 }
 
 #[cfg(test)]
